@@ -38,6 +38,7 @@ type Clause struct {
 	Expr  Spec
 	Props []string
 	Top   bool
+	AtCreation bool // closure precondition over captured state: checked where the closure is created
 }
 
 type Contract struct {
@@ -132,7 +133,7 @@ func (c *Contract) nilable(name string, isRecv bool) bool {
 	return c.Nilable[name]
 }
 
-var clauseKeywords = map[string]bool{"effect": true, "consumes": true, "produces": true, "nosafety": true, "invariant": true, "history": true, "atsend": true, "atcall": true, "nilable": true, "pure": true, "defines": true, "requires": true, "ensures": true, "modifies": true, "loop": true, "property": true,
+var clauseKeywords = map[string]bool{"effect": true, "consumes": true, "produces": true, "nosafety": true, "invariant": true, "history": true, "atsend": true, "atcall": true, "nilable": true, "pure": true, "defines": true, "requires": true, "captures": true, "ensures": true, "modifies": true, "loop": true, "property": true,
 	"inline": true, "trusted": true, "nilrecv": true, "maypanic": true, "label": true, "replay": true, "topensures": true}
 
 func (e *Engine) loadContracts(dir string, pkg *types.Package) error {
@@ -513,8 +514,10 @@ func (e *Engine) loadContractFile(path string, pkg *types.Package) error {
 		}
 		lastMod = false
 		switch kw {
-		case "requires":
-			lastClause = &Clause{Text: rest, Label: pendingLabel}
+		case "requires", "captures":
+			// captures <spec>: a closure's precondition about its captured variables;
+			// checked where the closure is created, assumed at its entry
+			lastClause = &Clause{Text: rest, Label: pendingLabel, AtCreation: kw == "captures"}
 			cur.Requires = append(cur.Requires, lastClause)
 			pendingLabel = ""
 		case "ensures", "topensures":
